@@ -72,8 +72,9 @@ type genState struct {
 	closedGrp map[groupKey]bool
 }
 
-var keyPool = []string{"", "", "a", "b"}
-var groupPool = []string{"g", "h"}
+// (one name and one group contain a space: names are free text, only backquotes are refused)
+var keyPool = []string{"", "", "a", "b b"}
+var groupPool = []string{"g", "h h"}
 
 func (g *genState) freshIdent(t *rapid.T, allowGroup bool) (Ident, int, bool) {
 	for try := 0; try < 20; try++ {
@@ -195,7 +196,7 @@ func (g *genState) genDeps(t *rapid.T, life int) (deps []DepSpec, needIn bool) {
 			if rapid.IntRange(0, 5).Draw(t, "groupAndName") == 0 {
 				// a group field that also carries a name tag: filled from the group, the name is ignored -
 				// also when a service of the field's own slice type is registered under that very name
-				gd.Key = rapid.SampledFrom([]string{"alsonamed", "a", "b"}).Draw(t, "alsoName")
+				gd.Key = rapid.SampledFrom([]string{"alsonamed", "a", "b b"}).Draw(t, "alsoName")
 			}
 			deps = append(deps, gd)
 		case k == 7: // built-in
@@ -660,7 +661,7 @@ func (g *genState) genSigTwin(t *rapid.T, regs []Reg) (Reg, bool) {
 		if tw.Form != FormPlain {
 			return Reg{}, false
 		}
-		for _, k := range []string{"b", "a", "tw"} {
+		for _, k := range []string{"b b", "a", "tw"} {
 			if id := (Ident{T: tw.Outs[0].T, Key: k}); !g.used[id] && k != src.Name {
 				tw.Name = k
 				break
